@@ -238,14 +238,11 @@ namespace svmon
       return LedgerAlloc (Cfg::mark_soccc ? (id ^ SOCCC_MARK) : id);
     }
 
-    friend bool operator== (const LedgerAlloc& a, const LedgerAlloc& b) noexcept
-    {
-      return Cfg::always_equal || a.id == b.id;
-    }
-    friend bool operator!= (const LedgerAlloc& a, const LedgerAlloc& b) noexcept
-    {
-      return ! (a == b);
-    }
+    // comparable with every rebound instance (Allocator requirements: a == b for B = rebind<U>)
+    template <typename U>
+    bool operator== (const LedgerAlloc<U, Cfg>& o) const noexcept { return Cfg::always_equal || id == o.id; }
+    template <typename U>
+    bool operator!= (const LedgerAlloc<U, Cfg>& o) const noexcept { return ! (*this == o); }
   };
 
   template <typename A> struct is_ledger_alloc : std::false_type { };
